@@ -28,6 +28,16 @@ def run(ctx):
         # while the package definitions change from one content evaluation result to the next
         pool = [(quals[j], f"meaning {j}", ctx.rng.choice(["X [1P]", "X [2P]", "Muss [1P]", "X [2P] U [4]", "X"]) if ctx.rng.random() < 0.3 else valcorr.ahb_expr(ctx.rng))
                 for j in range(n)]
+        if n >= 2 and ctx.rng.random() < 0.35:
+            # the same expression at several entries (qualifiers of one code list often share their condition), also an invalid one
+            i, j = ctx.rng.sample(range(n), 2)
+            x = valcorr.cond_expr(ctx.rng, "invalid") if ctx.rng.random() < 0.4 else None
+            src = ("X " + x) if x else pool[i][2]
+            pool[i] = (pool[i][0], pool[i][1], src)
+            pool[j] = (pool[j][0], pool[j][1], src)
+            if n >= 3 and ctx.rng.random() < 0.5:
+                k = ctx.rng.choice([q for q in range(n) if q not in (i, j)])
+                pool[k] = (pool[k][0], pool[k][1], ctx.rng.choice(["X [3]", "X [2]", "X [4]"]))
         # not offered, but close to what is: a fragment / an extension / another letter case of a qualifier, a fragment of the joined list of qualifiers
         near = ["Q", "0", " ", ", ", "q0", "Q0 ", " Q0", "Q00", "Q0, Q1", "Q0,Q1", "Q1, Q2", ", Q1"] + [q[:-1] for q in quals] + [q + q for q in quals] + [", ".join(quals)]
         inp = ctx.rng.choice([None, "", "ZZZ"] + quals + ([ctx.rng.choice(near)] if ctx.rng.random() < 0.6 else []))
